@@ -910,8 +910,9 @@ func directC04(tt *testing.T, tape *core.Tape, tier string, r *RunResult) {
 	// body to reach the trailers, which by design waits for the handler, and
 	// this handler waits for the client - a deadlock of the two programs, not
 	// of the library.)
+	liveSched := 0
 	if rec.plan.Kind == KBidi && rec.proto != PGRPC {
-		for _, mode := range []string{"oversize", "cut"} {
+		for _, mode := range []string{"oversize", "cut", "oversize", "cut", "oversize", "cut", "oversize", "cut"} {
 			p := *rec.plan
 			p.K = simhttp.DefaultKnobs()
 			p.HErr = nil
@@ -930,7 +931,16 @@ func directC04(tt *testing.T, tape *core.Tape, tier string, r *RunResult) {
 				p.K.DownCutErr = io.ErrUnexpectedEOF
 			}
 			sc2.Calls = []*CallPlan{&p}
-			w, st, panics := subRun(&sc2, core.ReplayTape(nil))
+			// the first pair under the default schedule, the others under
+			// schedules drawn from the exchange's own bytes: who gets to run
+			// first after the failure - the client closing, the transport
+			// forwarding the end of the request - decides what the handler sees
+			tape := core.ReplayTape(nil)
+			if liveSched >= 2 {
+				tape = core.NewTape(core.Mix(hashBytes(rec.respBody)+uint64(len(rec.reqBody)), uint64(liveSched)))
+			}
+			liveSched++
+			w, st, panics := subRun(&sc2, tape)
 			deliveries++
 			r.Steps += w.S.Steps
 			where := "client Receive fails (" + mode + ") while the request stream is still open"
